@@ -264,6 +264,25 @@ class SlotFailure(Exception):
     __slots__ = ('code',)
 
 
+class StrictMeta(type):
+    """A metaclass with an equality of its own (an ORM's model base, a units library): comparing the CLASS with
+    anything that is not one of its classes is an error."""
+    EQ_CALLS = []
+
+    def __eq__(cls, other):
+        StrictMeta.EQ_CALLS.append(other)
+        if not isinstance(other, StrictMeta):
+            raise TypeError('cannot compare a model class with %r' % (other,))
+        return cls is other
+
+    __hash__ = type.__hash__
+
+
+class Model(metaclass=StrictMeta):
+    def __init__(self, v):
+        self.v = v
+
+
 class traceback:
     def __init__(self, v):
         self.v = v
@@ -316,6 +335,8 @@ def typed(n):
     tb = traceback('x')
     mo = module('y')
     it = list_iterator('z')
+    model = Model(5)
+    del StrictMeta.EQ_CALLS[:]
     ad = AttrDict(a=1, b=2)
     rec = Record(a=1, b=2)
     jr = Journal([1, 2])
@@ -368,7 +389,7 @@ def typed_objects_leg(c, wd):
                                     ('tb', ['v']), ('mo', ['v']), ('it', ['v']),
                                     # the attribute-dict idiom (each entry once), keys readable as attributes, slots on
                                     # classes derived from containers and exceptions
-                                    ('ad', ['a', 'b']), ('rec', ['a', 'b']), ('jr', ['0', '1']), ('sb', ['0', '1', 'owner']),
+                                    ('model', ['v']), ('ad', ['a', 'b']), ('rec', ['a', 'b']), ('jr', ['0', '1']), ('sb', ['0', '1', 'owner']),
                                     ('sf', ['0', 'code'])):
                 v = by.get(name)
                 kids = [ch.name for ch in v.children] if v is not None else None
@@ -378,6 +399,9 @@ def typed_objects_leg(c, wd):
                 v = by.get(name)
                 if not bad and (v is None or v.value != 'tb-text'):
                     bad = 'local %s (an application class named %s) shows the text %r' % (name, v.type if v else None, v.value if v else None)
+            if not bad and mod.StrictMeta.EQ_CALLS:
+                bad = 'looking at local model compared its CLASS with %d other objects (the metaclass __eq__ is application code)' % len(
+                    mod.StrictMeta.EQ_CALLS)
             if not bad and mod.JOURNAL:
                 bad = 'looking at local jr ran its __getattribute__ (an application method) for %s' % sorted(set(mod.JOURNAL))
             # a number with more digits than the interpreter converts to decimal text by default (str() raises for it):
